@@ -63,6 +63,19 @@ fn c19_budget_replay() {
             }
         }
     }
+    // very large stacks: budget * 1000 exceeds u32 (every consensus-valid cost is within budget then)
+    for big in [4_294_911usize, 4_294_912, 4_300_000] {
+        let st = vec![vec![0u8; big]];
+        let budget = serialize(&st).len() as u64 + 50;
+        for cost in [Cost::from_milliweight(705), Cost::from_milliweight(4_000_000_000), Cost::CONSENSUS_MAX] {
+            let r = std::panic::catch_unwind(|| (cost.is_budget_valid(&st), cost.get_padding(&st).is_none()));
+            match r {
+                Ok((true, true)) => {}
+                Ok((v, p)) => fails.push(format!("one item of {} bytes (budget {} WU), cost {}: is_budget_valid = {}, get_padding is None = {}", big, budget, cost, v, p)),
+                Err(_) => fails.push(format!("one item of {} bytes (budget {} WU), cost {}: is_budget_valid / get_padding PANICS", big, budget, cost)),
+            }
+        }
+    }
     for f in &fails {
         println!("CEX: {}", f);
     }
